@@ -99,17 +99,23 @@ End Skip.
 (* ---- instances ---- *)
 Local Open Scope Z_scope.
 
-(* the harness instance: nodes (key, height) with the int order; zset members all carry score 0 *)
-Definition knode := (Z * nat)%type.
-Definition kheight (y : knode) : nat := snd y.
-Definition one (y : knode) : nat := 1%nat.
-(* zset, equal scores: lessThan = comparator(n.value, value) < 0, lessEqual = ... <= 0, one call each *)
-Definition z_insert_cost (highest : nat) (l : list knode) (k : Z) : nat :=
-  full_cost knode kheight (fun y => fst y <? k) one highest None l.
-Definition z_rank_cost (highest : nat) (l : list knode) (k : Z) : nat :=
-  rank_cost knode kheight (fun y => fst y <=? k) one (fun y => fst y =? k) highest None l.
+(* the harness instance: nodes (score, key, height) with the int order on keys; skipmap / skipset nodes carry score 0 *)
+Definition snode := (Z * Z * nat)%type.
+Definition sscore (y : snode) : Z := fst (fst y).
+Definition skey (y : snode) : Z := snd (fst y).
+Definition sheight (y : snode) : nat := snd y.
+Definition one (y : snode) : nat := 1%nat.
+(* zset listNode.lessThan / lessEqual: the member comparator is called exactly when the scores tie *)
+Definition ztie (s : Z) (y : snode) : nat := if sscore y =? s then 1%nat else 0%nat.
+Definition zlt (s k : Z) (y : snode) : bool := (sscore y <? s) || ((sscore y =? s) && (skey y <? k)).
+Definition zle (s k : Z) (y : snode) : bool := (sscore y <? s) || ((sscore y =? s) && (skey y <=? k)).
+(* the search loop shared by Insert(s, k), Delete(s, k) and UpdateScore(s = old score, k) *)
+Definition z_search_cost (highest : nat) (l : list snode) (s k : Z) : nat :=
+  full_cost snode sheight (zlt s k) (ztie s) highest None l.
+Definition z_rank_cost (highest : nat) (l : list snode) (s k : Z) : nat :=
+  rank_cost snode sheight (zle s k) (ztie s) (fun y => (skey y =? k) && (sscore y =? s)) highest None l.
 (* skipmap / skipset *)
-Definition m_find_cost (highest : nat) (l : list knode) (k : Z) : nat :=
-  find_cost knode kheight (fun y => fst y <? k) one (fun y => fst y =? k) one highest None l.
-Definition m_del_cost (highest : nat) (l : list knode) (k : Z) : nat :=
-  finddel_cost knode kheight (fun y => fst y <? k) one (fun y => fst y =? k) one highest None l false.
+Definition m_find_cost (highest : nat) (l : list snode) (k : Z) : nat :=
+  find_cost snode sheight (fun y => skey y <? k) one (fun y => skey y =? k) one highest None l.
+Definition m_del_cost (highest : nat) (l : list snode) (k : Z) : nat :=
+  finddel_cost snode sheight (fun y => skey y <? k) one (fun y => skey y =? k) one highest None l false.
